@@ -15,8 +15,8 @@ ASSUMPTIONS = ['ridges are 3 map rows thick with the maximum in the middle row (
                'with end-point responses (overlapping one ridge pixel at each end) the ridge is at least 9 px long', 'expected end points ds*(x0-2), ds*(x1+2) within 1.5*ds; vertical position within 0.9*ds; heights within 0.5*ds',
                'lines of the two runs of the rotation clause are matched by nearest end points (the engine orders lines with random jitter)']
 N = {'quick': 340, 'thorough': 17000}
-CLASSES = ['maps', 'maps', 'maps_sloped', 'maps_endpoints', 'maps_many', 'detect_rot', 'detect_rot', 'maps_short', 'detect_columns', 'columns_separator', 'detect_adaptive', 'maps_parallel_sloped', 'maps_tiny_heights', 'maps_border']
-REQUIRED = ['tiny_height_outlines', 'parallel_sloped_ridges', 'border_ridges', 'repeated_decodes_of_one_array', 'adaptive_detections', 'adaptive_proposals', 'rotated_pages_with_sides_not_multiple_of_ds', 'separator_pages', 'column_pages', 'same_row_pairs', 'parse_calls', 'ridges_checked', 'sloped_ridges', 'endpoint_ridges', 'short_ridges', 'detect_pairs', 'rotated_lines_compared', 'rot1', 'rot2', 'rot3', 'regions_compared']
+CLASSES = ['maps', 'maps', 'maps_sloped', 'maps_endpoints', 'maps_many', 'detect_rot', 'detect_rot', 'maps_short', 'detect_columns', 'columns_separator', 'detect_adaptive', 'maps_parallel_sloped', 'maps_tiny_heights', 'maps_border', 'maps_one_row', 'maps_thick', 'maps_mixed_heights']
+REQUIRED = ['decodes_with_another_connection_range', 'ridges_with_negative_height_responses', 'one_row_ridges', 'tiny_height_outlines', 'parallel_sloped_ridges', 'border_ridges', 'repeated_decodes_of_one_array', 'adaptive_detections', 'adaptive_proposals', 'rotated_pages_with_sides_not_multiple_of_ds', 'separator_pages', 'column_pages', 'same_row_pairs', 'parse_calls', 'ridges_checked', 'sloped_ridges', 'endpoint_ridges', 'short_ridges', 'detect_pairs', 'rotated_lines_compared', 'rot1', 'rot2', 'rot3', 'regions_compared']
 SHARDS = {'quick': 8, 'thorough': 16}
 # 'within one pixel': the engine's un-rotation uses W - y where the exact inverse is W - 1 - y (exactly 1 px apart); outlines are float32
 # arrays, so the observed difference can exceed 1 by float32 round-off (1.0000038 seen at x = 290 in the thorough tier)
@@ -33,6 +33,7 @@ def setup(ctx):
         ctx.eng = LayoutEngine(p, torch.device('cpu'), downsample=2, adaptive_downsample=False, detection_threshold=0.2)
         # rotated analysis at coarser resolutions (page sides that are not multiples of the factor), a decoder with a non-default end-point weight
         ctx.eng_ds = {ds: LayoutEngine(p, torch.device('cpu'), downsample=ds, adaptive_downsample=False, detection_threshold=0.2) for ds in (4, 8)}
+        ctx.eng_conn = {k: LayoutEngine(p, torch.device('cpu'), downsample=2, adaptive_downsample=False, detection_threshold=0.2, vertical_line_connection_range=k) for k in (1, 9)}
         ctx.eng_lew = LayoutEngine(p, torch.device('cpu'), downsample=2, adaptive_downsample=False, detection_threshold=0.2, line_end_weight=2.0)
         ctx.parsenet_path, ctx.LayoutEngine, ctx.torch = p, LayoutEngine, torch
         ps = stubs.make_parsenet_with_separators(ctx.tmpdir + '/parsenet_sep.pt')
@@ -116,6 +117,36 @@ def gen(rng, i, ctx):
                            'p': float(rng.uniform(0.6, 1.0)), 'endpoints': False})
             y += int(rng.integers(18, 40))
         return {'cls': cls, 'size': [H, W], 'ridges': ridges, 'ds': int(rng.choice([2, 4, 8]))}
+    if cls == 'maps_one_row':
+        # ridges one map row thick (the engine's own 3x3 smoothing spreads them over three equal rows), 6-12 columns long, strong enough to survive it
+        ridges, y = [], 14
+        while y < H - 14 and len(ridges) < 4:
+            x0 = int(rng.integers(6, max(7, W // 2)))
+            x1 = min(W - 6, x0 + int(rng.integers(5, 12)))
+            ridges.append({'x0': x0, 'x1': x1, 'y0': float(y), 'slope': 0.0, 'asc': float(rng.uniform(3, 9)), 'desc': float(rng.uniform(1, 4)), 'p': float(rng.uniform(0.66, 1.0)), 'endpoints': False, 'rows': 1})
+            y += int(rng.integers(18, 40))
+        return {'cls': cls, 'size': [H, W], 'ridges': [r for r in ridges if r['x1'] - r['x0'] >= 5], 'ds': int(rng.choice([1, 2, 4])), 'connection_range': int(rng.choice([1, 5, 9]))}
+    if cls == 'maps_thick':
+        # ridges seven rows thick with a single crest, decoded by engines with a vertical connection range of 1, 5 or 9
+        ridges, y = [], 16
+        while y < H - 16 and len(ridges) < 4:
+            x0 = int(rng.integers(4, max(5, W // 3)))
+            ridges.append({'x0': x0, 'x1': int(rng.integers(min(x0 + 10, W - 5), W - 4)) if x0 + 10 < W - 4 else x0 + 10, 'y0': float(y), 'slope': 0.0, 'asc': float(rng.uniform(3, 9)), 'desc': float(rng.uniform(1, 4)),
+                           'p': float(rng.uniform(0.6, 1.0)), 'endpoints': False, 'rows': 7})
+            y += int(rng.integers(22, 40))
+        return {'cls': cls, 'size': [H, W], 'ridges': [r for r in ridges if r['x1'] <= W - 4], 'ds': int(rng.choice([1, 2, 4])), 'connection_range': int(rng.choice([1, 5, 9]))}
+    if cls == 'maps_mixed_heights':
+        # the height regression is negative on half of a ridge's columns (it is clamped at 0 there): the line's height is the median of the clamped values
+        ridges, y = [], 14
+        while y < H - 14 and len(ridges) < 4:
+            x0 = int(rng.integers(4, max(5, W // 3)))
+            n_ = 2 * int(rng.integers(5, 20))
+            if x0 + n_ - 1 > W - 5:
+                break
+            ridges.append({'x0': x0, 'x1': x0 + n_ - 1, 'y0': float(y), 'slope': 0.0, 'asc': float(rng.uniform(6, 12)), 'desc': float(rng.uniform(2, 5)), 'p': float(rng.uniform(0.6, 1.0)), 'endpoints': False,
+                           'neg_half': str(rng.choice(['asc', 'desc'])), 'neg_value': float(-rng.uniform(2, 8))})
+            y += int(rng.integers(18, 40))
+        return {'cls': cls, 'size': [H, W], 'ridges': ridges, 'ds': int(rng.choice([1, 2, 4]))}
     if cls == 'maps_border':
         # a ridge two rows below the top border and a stronger one two rows above the bottom border, sharing columns (and one in the middle)
         H = int(rng.integers(60, 200))
@@ -165,12 +196,22 @@ def build_maps(case):
         xs = np.arange(r['x0'], r['x1'] + 1)
         ys = np.round(r['y0'] + r['slope'] * (xs - r['x0'])).astype(int)
         maps[ys, xs, 2] = r['p']
-        maps[ys - 1, xs, 2] = np.maximum(maps[ys - 1, xs, 2], 0.6 * r['p'])
-        maps[ys + 1, xs, 2] = np.maximum(maps[ys + 1, xs, 2], 0.6 * r['p'])
+        if r.get('rows', 3) == 3:
+            maps[ys - 1, xs, 2] = np.maximum(maps[ys - 1, xs, 2], 0.6 * r['p'])
+            maps[ys + 1, xs, 2] = np.maximum(maps[ys + 1, xs, 2], 0.6 * r['p'])
+        elif r.get('rows') == 7:
+            for dy, f in ((1, 0.8), (2, 0.55), (3, 0.3)):
+                maps[ys - dy, xs, 2] = np.maximum(maps[ys - dy, xs, 2], f * r['p'])
+                maps[ys + dy, xs, 2] = np.maximum(maps[ys + dy, xs, 2], f * r['p'])
         for dy in (-2, -1, 0, 1, 2):
             ok = (ys + dy >= 0) & (ys + dy < H)              # (ridges next to the border)
             maps[(ys + dy)[ok], xs[ok], 0] = r['asc']
             maps[(ys + dy)[ok], xs[ok], 1] = r['desc']
+        if r.get('neg_half'):
+            half = len(xs) // 2
+            ch = 0 if r['neg_half'] == 'asc' else 1
+            for dy in (-2, -1, 0, 1, 2):
+                maps[ys[:half] + dy, xs[:half], ch] = r['neg_value']
         if r['endpoints']:
             maps[ys[0] - 1:ys[0] + 2, max(0, r['x0'] - 1):r['x0'] + 1, 3] = 1.0
             maps[ys[-1] - 1:ys[-1] + 2, r['x1']:r['x1'] + 2, 3] = 1.0
@@ -187,7 +228,9 @@ def check(case, mon, ctx):
         return check_separator(case, mon, ctx)
     if case['cls'] == 'detect_adaptive':
         return check_adaptive(case, mon, ctx)
-    eng = ctx.eng
+    eng = ctx.eng if case.get('connection_range', 5) == 5 else ctx.eng_conn[case['connection_range']]
+    if case.get('connection_range', 5) != 5:
+        mon.count('decodes_with_another_connection_range')
     ds = case['ds']
     maps, rows = build_maps(case)
     if len(case['ridges']) >= 2:
@@ -206,6 +249,8 @@ def check(case, mon, ctx):
             mon.count('sloped_ridges')
         if case['cls'] == 'maps_parallel_sloped':
             mon.count('parallel_sloped_ridges')
+        if r.get('rows') == 1:
+            mon.count('one_row_ridges')
         if case['cls'] == 'maps_border' and (r['y0'] < 4 or r['y0'] > case['size'][0] - 5):
             mon.count('border_ridges')
         if r['endpoints']:
@@ -230,9 +275,24 @@ def check(case, mon, ctx):
         ey = float(np.abs(bb[:, 1] - yref).max())
         mon.observe_max('vertical_error_map_px', ey)
         at_border = r['y0'] < 3 or r['y0'] > case['size'][0] - 4         # (the engine's 3x3 smoothing is one-sided at the border: up to one more row)
-        if ey > (0.9 if not at_border else 1.5):      # rounding of a sloped ridge (0.5) + end-point compensation on a slope (2 * 0.08)
+        if ey > (0.9 if not at_border else 1.5) + (0.2 if r.get('rows') == 1 else 0.0):      # (a one-row ridge becomes three equal rows after smoothing; the top one is taken: exactly 1 row off)      # rounding of a sloped ridge (0.5) + end-point compensation on a slope (2 * 0.08)
             mon.violation('vertical-position-matches-the-map', dict(w, max_error=ey))
-        ea, ed = float(hh[0] - r['asc']), float(hh[1] - r['desc'])
+        e_asc, e_desc = r['asc'], r['desc']
+        if r.get('neg_half'):
+            mon.count('ridges_with_negative_height_responses')
+            half = (r['x1'] - r['x0'] + 1) // 2
+            vals = [0.0] * half + [r[r['neg_half']]] * (r['x1'] - r['x0'] + 1 - half)          # negative responses count as 0
+            if r['neg_half'] == 'asc':
+                e_asc = float(np.median(vals))
+            else:
+                e_desc = float(np.median(vals))
+        ea, ed = float(hh[0] - e_asc), float(hh[1] - e_desc)
+        if r.get('neg_half'):
+            # which columns of the ridge end up in the decoded line is not fixed to the pixel (end columns erode): the clamped values are 0 on one half and v on the
+            # other, so their median is 0, v/2 or v
+            v_ = r[r['neg_half']]
+            best = min(abs(float(hh[0 if r['neg_half'] == 'asc' else 1]) - c_) for c_ in (0.0, v_ / 2, v_))
+            ea, ed = (best, ed) if r['neg_half'] == 'asc' else (ea, best)
         mon.observe_max('height_error_map_px', max(abs(ea), abs(ed)))
         if abs(ea) > 0.5 or abs(ed) > 0.5:
             mon.violation('heights-match-the-map', dict(w, asc_error=ea, desc_error=ed))
